@@ -296,6 +296,29 @@ func c12Mult(c *Ctx, fnm map[string]*ssa.Function) {
 				dbg("findYi cond: %s", s)
 			}
 		}
+		if !ok && len(ifsOf(f)) == 0 {
+			// the bit returned directly: return int((Y[i/8] >> (7 - i%8)) & 1)
+			n, good := 0, 0
+			for _, b := range f.Blocks {
+				if r, isRet := b.Instrs[len(b.Instrs)-1].(*ssa.Return); isRet && len(r.Results) == 1 {
+					n++
+					v := r.Results[0]
+					for {
+						if cv, isCv := v.(*ssa.Convert); isCv {
+							v = cv.X
+							continue
+						}
+						break
+					}
+					if s := be.plain(v, r).String(); s == "and(0x1,shr(idx(Y,quo(index,0x8)),sub(0x7,rem(index,0x8))))" {
+						good++
+					} else {
+						dbg("findYi result: %s", s)
+					}
+				}
+			}
+			ok = n > 0 && n == good
+		}
 		c.Check(ok, "K-C12-mult", fname(f), "bit i of Y, most significant bit first", "", "findYi does not return bit (7 - i mod 8) of byte i/8", f.Pos())
 	}
 	// Rightshift
@@ -328,7 +351,16 @@ func c12Mult(c *Ctx, fnm map[string]*ssa.Function) {
 					downward = a.k == -1
 				}
 			}
-			ok = got == want1 && downward
+			// fused form: every byte but the first takes both halves in one store, the first byte is shifted after the loop
+			want2 := "[gt(len(V),0x0)] addr(V,0)=shr(idx(V,0),0x1) ; addr(V,i)=or(shl(and(0x1,idx(V,i-1)),0x7),shr(idx(V,i),0x1))"
+			hc := ""
+			if ifi, isIf := lastIf(ind.Block()); isIf {
+				hc = be.plain(ifi.Cond, ifi).String()
+			}
+			ok = downward && (got == want1 && hc == "ge(i,0x0)" || got == want2 && hc == "gt(i,0x0)")
+			if !ok {
+				dbg("Rightshift header cond: %s", hc)
+			}
 			if !ok {
 				dbg("Rightshift stores: %s downward=%v", got, downward)
 			}
@@ -371,7 +403,7 @@ func c12Mult(c *Ctx, fnm map[string]*ssa.Function) {
 		for _, ifi := range ifsOf(f) {
 			cond := ifi.Cond
 			bo, ok := cond.(*ssa.BinOp)
-			if !ok || bo.Op != token.EQL {
+			if !ok || (bo.Op != token.EQL && bo.Op != token.NEQ) {
 				continue
 			}
 			and, ok := bo.X.(*ssa.BinOp)
@@ -382,25 +414,40 @@ func c12Mult(c *Ctx, fnm map[string]*ssa.Function) {
 			k, isC := constInt(and.Y)
 			z, isZ := constInt(bo.Y)
 			i15, is15 := constInt(idx)
-			if !isLd || !isC || k != 1 || !isZ || z != 0 || !is15 || i15 != 15 {
+			if !isLd || !isC || k != 1 || !isZ || (z != 0 && z != 1) || !is15 || i15 != 15 {
 				continue
 			}
-			// false branch (bit set): Rightshift then addition(V, R)
-			fb := ifi.Block().Succs[1]
-			var seq []string
-			for _, in := range fb.Instrs {
-				if call, ok := in.(*ssa.Call); ok && call.Call.StaticCallee() != nil {
-					seq = append(seq, call.Call.StaticCallee().Name())
-				}
+			// which successor is taken when the low bit of V is set
+			setIdx := 1
+			if (bo.Op == token.EQL) == (z == 1) {
+				setIdx = 0
 			}
-			tb := ifi.Block().Succs[0]
-			var seqT []string
-			for _, in := range tb.Instrs {
-				if call, ok := in.(*ssa.Call); ok && call.Call.StaticCallee() != nil {
-					seqT = append(seqT, call.Call.StaticCallee().Name())
+			callsIn := func(b *ssa.BasicBlock, after ssa.Instruction) string {
+				var seq []string
+				on := after == nil
+				for _, in := range b.Instrs {
+					if in == after {
+						on = true
+						continue
+					}
+					if call, ok := in.(*ssa.Call); ok && on && call.Call.StaticCallee() != nil {
+						seq = append(seq, call.Call.StaticCallee().Name())
+					}
 				}
+				return strings.Join(seq, ",")
 			}
-			if strings.Join(seq, ",") == "Rightshift,addition" && strings.Join(seqT, ",") == "Rightshift" {
+			// the bit is read before any shift: calls between the test and the branch, then per successor
+			pre := ""
+			if bo.Block() == ifi.Block() {
+				pre = callsIn(ifi.Block(), bo)
+			}
+			set := callsIn(ifi.Block().Succs[setIdx], nil)
+			clr := callsIn(ifi.Block().Succs[1-setIdx], nil)
+			switch {
+			case pre == "" && set == "Rightshift,addition" && clr == "Rightshift":
+				redOK = true
+			case pre == "Rightshift" && set == "addition" && clr == "" && bo.Block() == ifi.Block():
+				// the shift hoisted out of both branches, the bit remembered before it
 				redOK = true
 			}
 		}
